@@ -23,8 +23,10 @@ NonNum == {"nan", "inf", "-inf", "exc", "na"}
 IsNum(s) == s \notin NonNum
 Close(s, v) == IF v = "nan" THEN s = "nan" ELSE IsNum(s) /\ RClose(RParse(s), v, Tol, Tol)
 
-CardsOf(r) == [k \in 1..Len(r.cards) |-> [cs |-> r.cards[k].cs, ph |-> r.cards[k].ph, pool |-> r.cards[k].pool,
-                                           ms |-> r.cards[k].ms]]
+RawCards(r) == [k \in 1..Len(r.cards) |-> [cs |-> r.cards[k].cs, ph |-> r.cards[k].ph, pool |-> r.cards[k].pool,
+                                            ms |-> r.cards[k].ms]]
+\* when the driver ran the ONEAudit padding first, the specification applies it too
+CardsOf(r) == IF "padded" \in DOMAIN r /\ r.padded THEN Padded(RawCards(r)) ELSE RawCards(r)
 SeqOfSet(S) == SetToSortSeq(S, <)      \* positions in increasing order
 
 CompClauses(r) ==
